@@ -187,7 +187,10 @@ where
             if !interlock.sender.check_local() {
                 return Err(ser::Error::custom("cannot send receiver because sender has been sent"));
             }
-            interlock.sender.start_send()
+            if !interlock.receiver.check_local() {
+                return Err(ser::Error::custom("cannot send receiver because it has already been sent"));
+            }
+            interlock.receiver.start_send()
         };
 
         let port = PortSerializer::connect(move |connect| {
